@@ -354,3 +354,45 @@ pub fn run(args: &[String]) {
     ]);
     println!("{}", out.to_string());
 }
+
+/// rqmc c01-dump <alphabet> <maxlen> <outfile>: the (A, B, hunks) cases of the reference differ as records for the
+/// CLI-level dialect sweep: u8 a_absent, b_absent, hunks, zero_side, top_of_file, context; then A, B, hunk text, each u32-length-prefixed
+pub fn dump(args: &[String]) {
+    use std::io::Write;
+    let sigma: &[&[u8]] = if args.get(0).map(|s| s.as_str()) == Some("n") { SIGMAN } else { SIGMA2 };
+    let maxlen: usize = args.get(1).and_then(|s| s.parse().ok()).unwrap_or(3);
+    let mut out = std::io::BufWriter::new(std::fs::File::create(&args[2]).unwrap());
+    let mut n = 0u64;
+    fn rec(sigma: &[&[u8]], cur: &mut Vec<Op>, maxlen: usize, out: &mut dyn Write, n: &mut u64) {
+        for flags in 0..16u8 {
+            let case = Case { sigma, script: cur, a_nonl: flags & 1 != 0, b_nonl: flags & 2 != 0, a_absent: flags & 4 != 0, b_absent: flags & 8 != 0 };
+            if !case.valid() {
+                continue;
+            }
+            let (a, b) = case.sides();
+            for &c in &[0usize, 1, 3] {
+                if let Some((d, nh, zero_side, _)) = case.diff(c, true, b"X", b"Y") {
+                    // strip the two header lines
+                    let body_start = d.iter().enumerate().filter(|(_, ch)| **ch == b'\n').nth(1).map(|(i, _)| i + 1).unwrap();
+                    let top = cur.iter().position(|o| !matches!(o, Op::Keep(_))) == Some(0);
+                    out.write_all(&[case.a_absent as u8, case.b_absent as u8, nh as u8, zero_side as u8, top as u8, c as u8]).unwrap();
+                    for f in [&a.concat(), &b.concat(), &d[body_start..].to_vec()] {
+                        out.write_all(&(f.len() as u32).to_le_bytes()).unwrap();
+                        out.write_all(f).unwrap();
+                    }
+                    *n += 1;
+                }
+            }
+        }
+        if cur.len() == maxlen {
+            return;
+        }
+        for k in 0..3 * sigma.len() {
+            cur.push(op_of(k, sigma.len()));
+            rec(sigma, cur, maxlen, out, n);
+            cur.pop();
+        }
+    }
+    rec(sigma, &mut vec![], maxlen, &mut out, &mut n);
+    println!("{}", n);
+}
